@@ -10,7 +10,7 @@ package main
 //	scan LO HI N     ctx.Select(LO, HI), at most N calls of Next, Close          observes the items
 //	copy S D         v := Get(S); found -> Put(D, v); deleted -> Put(D, "v1"); never written -> Del(D)   (data flow read -> write)
 //	cnt LO HI N D    c := number of items of scan LO HI N; Put(D, "v<2+c>")       (data flow scan -> write)
-//	xfer T A         ctx.Transfer(initiator, address of user T, A)
+//	xfer T A         ctx.Transfer(address of user 3 = the paying account ("bank"), address of user T, A)
 //	ev E             ctx.AddEvent(event named "e<E>")
 //	burn N           ctx.AddResourceUsed(XFee: N)            (1 gas per unit on a fee chain)
 //	fail             return Status 500
@@ -153,7 +153,7 @@ func (c *xvc) run(ctx contract.KContext) (*contract.Response, error) {
 			}
 		case "xfer":
 			amt, _ := new(big.Int).SetString(w[2], 10)
-			if err := ctx.Transfer(ctx.Initiator(), c.addrOf(w[1]), amt); err != nil {
+			if err := ctx.Transfer(c.addrOf("3"), c.addrOf(w[1]), amt); err != nil {
 				return nil, err
 			}
 		case "ev":
